@@ -33,34 +33,16 @@ theorem forL_pure {σ α : Type} (f : σ → α → σ) (xs : List α) (s : σ) 
   have h := iterL_pure f xs s
   simp only [forL, bind_tr, bind_val, emit_tr, h.1, h.2, List.append_nil, and_self]
 
-/-! ## LO -/
-
-@[simp] theorem LO.pure_val {α : Type} (a : α) : (pure a : LO α).val = some a := rfl
-@[simp] theorem LO.pure_tr {α : Type} (a : α) : (pure a : LO α).tr = [] := rfl
-@[simp] theorem LO.lift_val {α : Type} (x : Option α) : (LO.lift x).val = x := rfl
-@[simp] theorem LO.lift_tr {α : Type} (x : Option α) : (LO.lift x).tr = [] := rfl
-@[simp] theorem LO.emit_val (e : Event) : (LO.emit e).val = some () := rfl
-@[simp] theorem LO.emit_tr (e : Event) : (LO.emit e).tr = [e] := rfl
-@[simp] theorem LO.ofLeakM_val {α : Type} (m : LeakM α) : (LO.ofLeakM m).val = some m.val := rfl
-@[simp] theorem LO.ofLeakM_tr {α : Type} (m : LeakM α) : (LO.ofLeakM m).tr = m.tr := rfl
-
-/-- erasure commutes with `bind` -/
-@[simp] theorem LO.bind_val {α β : Type} (m : LO α) (f : α → LO β) :
-    (m >>= f).val = m.val.bind (fun a => (f a).val) := by
-  show (match m.val with | none => (⟨none, m.tr⟩ : LO β) | some a => ⟨(f a).val, m.tr ++ (f a).tr⟩).val = _
-  cases m.val <;> rfl
-
-theorem LO.bind_tr_some {α β : Type} (m : LO α) (f : α → LO β) (a : α) (h : m.val = some a) :
-    (m >>= f).tr = m.tr ++ (f a).tr := by
-  show (match m.val with | none => (⟨none, m.tr⟩ : LO β) | some a => ⟨(f a).val, m.tr ++ (f a).tr⟩).tr = _
-  rw [h]
+/-! ## LO (the base lemmas `LO.pure_val … LO.bind_tr_some` are in Impl/LeakModel.lean) -/
 
 /-- `Const m t`: IF the computation does not panic, its trace is `t` -/
-def Const {α : Type} (m : LO α) (t : Trace) : Prop := m.val.isSome → m.tr = t
+structure Const {α : Type} (m : LO α) (t : Trace) : Prop where
+  out : m.val.isSome → m.tr = t
 
-theorem Const.pure {α : Type} (a : α) : Const (pure a : LO α) [] := fun _ => rfl
-theorem Const.lift {α : Type} (x : Option α) : Const (LO.lift x) [] := fun _ => rfl
-theorem Const.emit (e : Event) : Const (LO.emit e) [e] := fun _ => rfl
+theorem Const.pure {α : Type} (a : α) : Const (pure a : LO α) [] := ⟨fun _ => LO.pure_tr a⟩
+theorem Const.lift {α : Type} (x : Option α) : Const (LO.lift x) [] := ⟨fun _ => LO.lift_tr x⟩
+theorem Const.emit (e : Event) : Const (LO.emit e) [e] := ⟨fun _ => LO.emit_tr e⟩
+theorem Const.ofLeakM {α : Type} (m : LeakM α) : Const (LO.ofLeakM m) m.tr := ⟨fun _ => LO.ofLeakM_tr m⟩
 theorem Const.of_eq {α : Type} {m : LO α} {t t' : Trace} (h : Const m t) (e : t = t') : Const m t' := e ▸ h
 
 /-- the trace of a sequence is the concatenation; the second trace may depend on the first VALUE (a declassified
@@ -68,22 +50,66 @@ theorem Const.of_eq {α : Type} {m : LO α} {t t' : Trace} (h : Const m t) (e : 
 theorem Const.bind' {α β : Type} {m : LO α} {f : α → LO β} {t₁ : Trace} {t₂ : α → Trace}
     (h₁ : Const m t₁) (h₂ : ∀ a, m.val = some a → Const (f a) (t₂ a)) :
     ∀ a, m.val = some a → Const (m >>= f) (t₁ ++ t₂ a) := by
-  intro a ha hs
-  rw [LO.bind_tr_some m f a ha, h₁ (by rw [ha]; rfl)]
+  intro a ha
+  constructor
+  intro hs
+  rw [LO.bind_tr_some m f a ha, h₁.out (by rw [ha]; rfl)]
   have : (f a).val.isSome := by
     rw [LO.bind_val, ha] at hs; exact hs
-  rw [h₂ a ha this]
+  rw [(h₂ a ha).out this]
 
 theorem Const.bind {α β : Type} {m : LO α} {f : α → LO β} {t₁ t₂ : Trace}
     (h₁ : Const m t₁) (h₂ : ∀ a, m.val = some a → Const (f a) t₂) : Const (m >>= f) (t₁ ++ t₂) := by
+  constructor
   intro hs
   cases hm : m.val with
   | none => rw [LO.bind_val, hm] at hs; exact absurd hs (by simp)
-  | some a => exact Const.bind' h₁ h₂ a hm hs
+  | some a => exact (Const.bind' h₁ h₂ a hm).out hs
+
+/-- a panicking computation has every "constant" trace (vacuously) -/
+theorem Const.of_none {α : Type} {m : LO α} (t : Trace) (h : m.val = none) : Const m t :=
+  ⟨fun hs => by rw [h] at hs; exact absurd hs (by simp)⟩
+
+/-- sequence whose second trace depends on the first value, re-expressed as one trace `T` -/
+theorem Const.bindV {α β : Type} {m : LO α} {f : α → LO β} {t₁ : Trace} {t₂ : α → Trace} {T : Trace}
+    (h₁ : Const m t₁) (h₂ : ∀ a, m.val = some a → Const (f a) (t₂ a)) (hT : ∀ a, m.val = some a → t₁ ++ t₂ a = T) :
+    Const (m >>= f) T := by
+  constructor
+  intro hs
+  cases hm : m.val with
+  | none => rw [LO.bind_val, hm] at hs; exact absurd hs (by simp)
+  | some a => rw [← hT a hm]; exact (Const.bind' h₁ h₂ a hm).out hs
+
+theorem LO.emit_bind_val {β : Type} (e : Event) (f : Unit → LO β) : (LO.emit e >>= f).val = (f ()).val :=
+  LO.bind_val_some _ _ () (LO.emit_val e)
 
 /-- two runs that do not panic and have the same constant trace -/
 theorem Const.eq_of {α β : Type} {m : LO α} {m' : LO β} {t : Trace} (h : Const m t) (h' : Const m' t)
-    (hs : m.val.isSome) (hs' : m'.val.isSome) : m.tr = m'.tr := by rw [h hs, h' hs']
+    (hs : m.val.isSome) (hs' : m'.val.isSome) : m.tr = m'.tr := by rw [h.out hs, h'.out hs']
+
+/-- erasure of a sequence, step by step (no rewriting under binders) -/
+theorem LO.erase_bind {α β : Type} {m : LO α} {f : α → LO β} {x : Option α} {g : α → Option β}
+    (hm : m.val = x) (hf : ∀ a, (f a).val = g a) : (m >>= f).val = x >>= g := by
+  rw [LO.bind_val, hm]
+  cases x with
+  | none => rfl
+  | some a => exact hf a
+
+/-- proves `(do … : LO _).val = (do … : Option _)` for two `do` blocks of the same shape, the left one made of
+    `LO.lift` / `LO.emit` / `pure` steps and calls whose erasure lemmas are listed -/
+syntax "leak_erase" "[" term,* "]" : tactic
+macro_rules
+  | `(tactic| leak_erase [$ts,*]) => do
+    let alts ← ts.getElems.mapM (fun t => `(tactic| apply $t))
+    `(tactic| repeat (first | intro _ | exact LO.lift_val _ | exact LO.pure_val _ | rw [LO.emit_bind_val] | apply LO.erase_bind $[| $alts:tactic]*))
+
+/-- proves `Const (do …) T` for a `do` block of `LO.lift` / `LO.emit` / `pure` steps and calls whose `Const` lemmas
+    are listed: computes the concatenated trace, leaves the goal `computed = T` (usually `simp` / `rfl`) -/
+syntax "leak_const" "[" term,* "]" : tactic
+macro_rules
+  | `(tactic| leak_const [$ts,*]) => do
+    let alts ← ts.getElems.mapM (fun t => `(tactic| apply $t))
+    `(tactic| (apply Const.of_eq; repeat (first | intro _ _ | apply Const.lift | apply Const.pure | apply Const.emit | apply Const.ofLeakM | apply Const.bind $[| $alts:tactic]*)))
 
 /-! ## (f) comparisons -/
 
